@@ -1217,6 +1217,11 @@ class Translator:
                 return self.bind(ctx, term, fi.ret_t, k, hint)
             return self.tr_list([recv_ast] + self.adapt_args(fi, args_ast, ctx, 1), ctx, after)
         # mutating Vec methods in value position are statements
+        if m == 'sum' and not args_ast and r0[0] == 'mcall' and r0[2] == 'map' and len(r0[3]) == 1 and strip_paren(r0[3][0])[0] == 'closure':
+            c2 = strip_paren(r0[3][0]); src = strip_paren(r0[1])
+            if src[0] == 'mcall' and src[2] in ('iter', 'into_iter') and not src[3] and len(c2[1]) == 1:
+                e2 = rust_expr('{ let mut acc__ = 0; for pat__ in SRC__ { acc__ += BODY__; } acc__ }', SRC__=src[1], BODY__=c2[2], pat__=('pat', c2[1][0][0]))
+                return self.tr(e2, ctx, k, hint)
         if rt and rt[0] == 'vec' and m == 'sum' and not args_ast:
             return self.tr(recv_ast, ctx, lambda v, vt: self.bind(ctx, 'RS.sum %s %s' % (ctx.c(), paren(v)), 'usize', k, hint))
         if rt and rt[0] == 'vec' and m in ('push', 'clear', 'shrink_to_fit', 'pop', 'truncate', 'resize', 'extend_from_slice'):
@@ -1999,13 +2004,73 @@ def lean_rejects(outp):
         if name and name not in bad: bad.append(name)
     return bad or ['<unlocated>']
 
+def split_blocks(text):
+    """the generated file as an ordered list of (kind, name, block text); blocks are separated by blank lines"""
+    blocks = []
+    for b in text.split('\n\n'):
+        m = re.search(r'^(?:@\[reducible\] )?(def|structure) (\S+)', b, re.M)
+        blocks.append(((m.group(1), m.group(2)) if m else (None, None)) + (b,))
+    return blocks
+
+def def_text(block):
+    """the definition without its doc comment (which carries source line numbers)"""
+    i = block.find('\ndef ')
+    return block[i + 1:] if i >= 0 else (block if block.startswith('def ') else block)
+
+PIN_NAME = 'FnsPinned.txt'
+
+def bridge_files(fresh_text, outp):
+    """Where the fresh translation of a function differs from the pinned text only in its body, keep the pinned text in
+    Fns.lean and put the fresh one, with a theorem `fresh = pinned`, into Current.lean. Returns (Fns text, Current text,
+    candidate names)."""
+    pin_path = os.path.join(os.path.dirname(outp), PIN_NAME)
+    head = ['-- GENERATED by tools/gen_fns.py; do not edit.', 'import Sucds.Gen.Fns', 'import Sucds.Model.BridgeTac',
+            'set_option linter.unusedVariables false',
+            '/-! Fresh translations of the functions whose text differs from the pinned translation (`Gen/FnsPinned.txt`), each',
+            '    with a machine-checked proof that it equals the pinned definition in `Gen/Fns.lean`. Empty when the sources are',
+            '    the ones the equivalence proofs were written against. -/', 'namespace Sucds.GenFnNow', 'open Sucds Sucds.GenFn', '']
+    empty = '\n'.join(head + ['end Sucds.GenFnNow']) + '\n'
+    if not os.path.exists(pin_path): return fresh_text, empty, []
+    pinned = dict((n, b) for k, n, b in split_blocks(open(pin_path).read()) if k == 'def')
+    out = []; cands = []
+    for k, n, b in split_blocks(fresh_text):
+        if k == 'def' and n in pinned and def_text(pinned[n]) != def_text(b):
+            sig_new = def_text(b).split(':=')[0]; sig_old = def_text(pinned[n]).split(':=')[0]
+            if sig_new == sig_old and 'fuel_' not in sig_new:
+                cands.append((n, b)); out.append(pinned[n]); continue
+        out.append(b)
+    if not cands: return fresh_text, empty, []
+    cur = list(head)
+    names = [n for n, _ in cands]
+    new_fns = [n for k, n, b in split_blocks(fresh_text) if k == 'def' and n not in pinned and not def_text(b).startswith('@')]
+    for n, b in cands:
+        cur.append(b)
+        # unfold the new definition, the pinned one, and every other changed definition it may call
+        unf = ' '.join(['GenFnNow.%s' % m for m in names] + ['GenFn.%s' % n] + ['GenFn.%s' % m for m in new_fns])
+        nargs = def_text(b).split(':=')[0].count('(')      # an upper bound on the number of arguments
+        cur.append('theorem %s.bridge : @GenFnNow.%s = @GenFn.%s := by\n  repeat (apply funext; intro)\n  all_goals (try unfold %s)\n  all_goals bridge_close\n' % (n, n, n, unf))
+    cur.append('end Sucds.GenFnNow')
+    return '\n\n'.join(out), '\n'.join(cur) + '\n', names
+
+def lean_errors(path, lean_dir):
+    import subprocess
+    r = subprocess.run(['lake', 'env', 'lean', os.path.abspath(path)], cwd=lean_dir, capture_output=True, text=True)
+    if r.returncode == 0: return []
+    return [int(m.group(1)) for m in re.finditer(r'%s:(\d+):\d+: error' % re.escape(os.path.basename(path)), r.stdout + r.stderr)] or [-1]
+
 def main():
     repo = sys.argv[1]; outp = sys.argv[2]
+    curp = os.path.join(os.path.dirname(outp), 'Current.lean')
+    lean_dir = os.path.dirname(os.path.dirname(os.path.dirname(os.path.abspath(outp))))
     text, report = translate_crate(repo)
+    if '--repin' in sys.argv:
+        open(os.path.join(os.path.dirname(outp), PIN_NAME), 'w').write(text)
     old = open(outp).read() if os.path.exists(outp) else None
-    if old != text:
+    fns_text, cur_text, cands = bridge_files(text, outp)
+    report['bridged'] = []; report['changed_not_bridged'] = []
+    if old != fns_text or (open(curp).read() if os.path.exists(curp) else None) != cur_text:
         os.makedirs(os.path.dirname(outp), exist_ok=True)
-        open(outp, 'w').write(text)
+        open(outp, 'w').write(fns_text); open(curp, 'w').write(cur_text)
         if '--validate' in sys.argv:
             # a definition Lean rejects (a construct the translator mishandles) is dropped together with its dependents,
             # so that one unusual function cannot take the other generated definitions down with it
@@ -2015,12 +2080,54 @@ def main():
                 if not bad or bad == ['<unlocated>']: break
                 exclude |= set(bad)
                 text, report = translate_crate(repo, exclude)
-                open(outp, 'w').write(text)
+                fns_text, cur_text, cands = bridge_files(text, outp)
+                open(outp, 'w').write(fns_text); open(curp, 'w').write(cur_text)
             report['rejected_by_lean'] = sorted(exclude)
+            report['bridged'] = []; report['changed_not_bridged'] = []
+            if cands:
+                # which of the rewrites does Lean accept as behaviour-preserving?  (Fns.olean must be current first)
+                import subprocess
+                subprocess.run(['lake', 'build', 'Sucds.Gen.Fns', 'Sucds.Model.BridgeTac'], cwd=lean_dir, capture_output=True, text=True)
+                errs = lean_errors(curp, lean_dir)
+                if errs:
+                    lines = cur_text.split('\n')
+                    starts = [(i + 1, m.group(1)) for i, l in enumerate(lines) for m in [re.match(r'(?:def|theorem) (\S+?)(?:\.bridge)? ', l)] if m]
+                    failed = set()
+                    for ln in errs:
+                        nm = None
+                        for st, n in starts:
+                            if st <= ln: nm = n
+                        failed.add(nm)
+                    if None in failed or -1 in errs: failed = set(cands)
+                    # the rewrites Lean does not accept: their fresh text goes into Fns.lean (the equivalence proofs decide)
+                    keep = [n for n in cands if n not in failed]
+                    pin_path = os.path.join(os.path.dirname(outp), PIN_NAME)
+                    pinned = dict((n, b) for k, n, b in split_blocks(open(pin_path).read()) if k == 'def')
+                    for n in failed: pinned.pop(n, None)
+                    tmp_pin = pin_path + '.tmp'
+                    # rebuild with the reduced pinned set
+                    save = open(pin_path).read()
+                    try:
+                        open(pin_path, 'w').write('\n\n'.join(pinned.values()))
+                        fns_text, cur_text, cands2 = bridge_files(text, outp)
+                    finally:
+                        open(pin_path, 'w').write(save)
+                    open(outp, 'w').write(fns_text); open(curp, 'w').write(cur_text)
+                    subprocess.run(['lake', 'build', 'Sucds.Gen.Fns'], cwd=lean_dir, capture_output=True, text=True)
+                    if cands2 and lean_errors(curp, lean_dir):
+                        # give up on bridging altogether
+                        fns_text, cur_text, cands2 = text, bridge_files(text, '/nonexistent/x')[1], []
+                        open(outp, 'w').write(fns_text); open(curp, 'w').write(cur_text)
+                    report['bridged'] = cands2; report['changed_not_bridged'] = sorted(set(cands) - set(cands2))
+                else:
+                    report['bridged'] = cands
+    else:
+        report['bridged'] = cands
     if '--report' in sys.argv:
         json.dump(report, open(sys.argv[sys.argv.index('--report') + 1], 'w'), indent=1)
-    print('gen_fns: %d functions translated, %d not translated%s' % (len(report['translated']), len(report['untranslated']),
-          (', parse errors: ' + '; '.join(report['parse_errors'])) if report['parse_errors'] else ''))
+    print('gen_fns: %d functions translated, %d not translated%s%s' % (len(report['translated']), len(report['untranslated']),
+          (', parse errors: ' + '; '.join(report['parse_errors'])) if report['parse_errors'] else '',
+          (', %d rewritten functions proved equal to the pinned translation (%s)' % (len(report['bridged']), ', '.join(report['bridged']))) if report.get('bridged') else ''))
     if '-v' in sys.argv:
         for k, v in sorted(report['untranslated'].items()): print('  untranslated %-50s %s' % (k, v))
 
